@@ -13,7 +13,9 @@ if ! git apply $OUT/patch$N.diff; then echo "$P/$N: patch does not apply to HEAD
 mkdir -p tests; cp $OUT/demo$N.rs tests/seed_demo.rs
 build=$(cargo build --offline 2>&1 | tail -1)
 suite=$(cargo test --offline --lib 2>&1 | grep "test result" | head -1)
-demo_with=$(cargo test --offline --test seed_demo 2>&1 | grep -E "test result|error(\[|:)" | head -1)
+demo_out=$(cargo test --offline --test seed_demo 2>&1)
+demo_with=$(echo "$demo_out" | grep -E "^test result" | head -1)
+[ -z "$demo_with" ] && demo_with=$(echo "$demo_out" | grep -E "^error(\[|:)" | head -1)
 git checkout -- src
 demo_without=$(cargo test --offline --test seed_demo 2>&1 | grep -E "test result|error(\[|:)" | head -1)
 echo "$P/$N: suite-with-patch: $suite | demo-with: $demo_with | demo-without: $demo_without"
